@@ -411,7 +411,10 @@ def run(ctx):
     for w in sorted(wrappers):
         wf = prog.fns[w]
         ctx.instance(1)
-        shaping = [short(c).rsplit("::", 1)[-1] for b, t, c in wf.calls() if c and re.search(r"Option::<T>::(filter|take_if|and_then|xor|zip|filter_map|take|replace|map_or|is_some_and)$", c)]
+        def from_transport(e):
+            return any(x[0] == "call" and (str(x[1]).endswith("Read>::read") or x[1] in (ARG_READ, STDIN_READ)) for x in expr_walk(e))
+        shaping = [short(c).rsplit("::", 1)[-1] for b, t, c in wf.calls() if c and re.search(r"Option::<T>::(filter|take_if|and_then|xor|zip|filter_map|take|replace|map_or|is_some_and)$", c)
+                   and t.get("args") and from_transport(wf.expr(t["args"][0], 10))]
         own_none = [b for b, i_, s_ in wf.assigns() if s_["p"]["l"] == 0 and not s_["p"].get("pr") and s_["r"]["k"] == "agg"
                     and str(s_["r"].get("adt", "")).endswith("option::Option") and s_["r"].get("variant") == "None"]
         # a None of its own is fine behind the None edge of a transport's own answer (`match inner.read() { Some(c) => Some(c), None => None }`)
@@ -436,7 +439,8 @@ def run(ctx):
                           "that transport only" % (short(w), ("calls Option::%s on it" % ", ".join(shaping)) if shaping else "stores a None of its own"))
     # combined reader: argument first
     cr = prog.fns[CR_READ]
-    ab = [b for b, t, c in cr.calls() if c == ARG_READ]
+    # the argument is read by a direct call, or by handing Argument::read to `and_then` on the optional argument
+    ab = [b for b, t, c in cr.calls() if c == ARG_READ or (c and c.endswith("Option::<T>::and_then") and any(a_.get("k") == "const" and (a_.get("resolved") or a_.get("fn_full")) == ARG_READ for a_ in t["args"]))]
     sb2 = [b for b, t, c in cr.calls() if c and c.endswith("Stream as debugger::command::reader::Read>::read")]
     ctx.instance(1)
     ok = len(ab) == 1 and len(sb2) == 1
@@ -456,6 +460,8 @@ def run(ctx):
         f = ctx.fn(INT + meth)
         conv = [c for b, t, c in f.calls() if c and "TryInto<" in c or (c and c.endswith("try_into"))]
         tys = [t["f"].get("targs", []) for b, t, c in f.calls() if c and c.endswith("try_into")]
+        # `u16::try_from(value)` is the same checked conversion spelled from the target's side
+        tys += [[m_.group(1)] for b, t, c in f.calls() for m_ in [re.search(r"TryFrom<\w+> for (\w+)>::try_from$", c or "")] if m_]
         ok = any(target in tt for tt in tys)
         ctx.instance(1)
         ctx.oblig(ok, {meth: "try_into::<%s>" % target}, "checked conversion")
